@@ -239,9 +239,43 @@ def zeroFirst : Nat → List Int → List Int
   | _, [] => []
   | n + 1, _ :: s => NC_NOERR :: zeroFirst n s
 
+/-- The model follows the source tree in three places where a repair of a known defect changes the
+    code (the check finds out by replaying the witnesses which variant the tree has and tells the
+    driver).  All fields `false` = the code as found (pinned commit).
+      numrecsAllLeads   : req_commit scans `ncp->numLeadPutReqs` leads (not `num_w_lead_reqs`) for newnumrecs   (F21)
+      clearOnRefusal    : extract_reqs clears NC_REQ_TO_FREE / status on every lead before returning an error   (F19)
+      shortcutChecksIds : the "same as …_ALL" shortcuts also require req_ids[] = the queue's ids in queue order  (F4) -/
+structure Variant where
+  numrecsAllLeads : Bool := false
+  clearOnRefusal : Bool := false
+  shortcutChecksIds : Bool := false
+deriving Repr, DecidableEq, Inhabited
+
+def idsOf (lead : List Lead) : List Int := lead.map (fun l => l.c.id)
+
+/-- condition of the shortcut "this is the same as NC_PUT_REQ_ALL" -/
+def sc1 (V : Variant) (nc : NC) (numReqs : Int) (ids : List Int) : Prop :=
+  nc.get.numReqs = 0 ∧ numReqs = (nc.put.numLead : Int) ∧ (V.shortcutChecksIds = true → idsOf nc.put.lead = ids)
+/-- "this is the same as NC_GET_REQ_ALL" -/
+def sc2 (V : Variant) (nc : NC) (numReqs : Int) (ids : List Int) : Prop :=
+  nc.put.numReqs = 0 ∧ numReqs = (nc.get.numLead : Int) ∧ (V.shortcutChecksIds = true → idsOf nc.get.lead = ids)
+/-- "this is the same as NC_REQ_ALL" -/
+def sc3 (V : Variant) (nc : NC) (numReqs : Int) (ids : List Int) (st : Option (List Int)) : Prop :=
+  numReqs = ((nc.put.numLead + nc.get.numLead : Nat) : Int) ∧ st.isNone = true ∧
+  (V.shortcutChecksIds = true → idsOf nc.put.lead ++ idsOf nc.get.lead = ids)
+
+instance (V : Variant) (nc : NC) (n : Int) (ids : List Int) : Decidable (sc1 V nc n ids) := by unfold sc1; infer_instance
+instance (V : Variant) (nc : NC) (n : Int) (ids : List Int) : Decidable (sc2 V nc n ids) := by unfold sc2; infer_instance
+instance (V : Variant) (nc : NC) (n : Int) (ids : List Int) (st : Option (List Int)) : Decidable (sc3 V nc n ids st) := by
+  unfold sc3; infer_instance
+
+/-- the repaired refusal path: `fClr(flag, NC_REQ_TO_FREE); status = NULL;` on every lead -/
+def clearMarks (lead : List Lead) : List Lead :=
+  lead.map (fun l => { l with c := { l.c with toFree := false, status := none } })
+
 /-- `extract_reqs(ncp, num_reqs, req_ids, statuses, …)`.  `ids.length = num_reqs` when
     `num_reqs ≥ 0`; for the three negative constants `ids`/`st` are ignored as in the C code. -/
-def extract (nc : NC) (numReqs : Int) (ids : List Int) (st : Option (List Int)) : Ext :=
+def extract (nc : NC) (numReqs : Int) (ids : List Int) (st : Option (List Int)) (V : Variant := {}) : Ext :=
   let base : Ext := { nc := nc, ids := ids, st := st }
   if numReqs = NC_REQ_ALL ∨ numReqs = NC_GET_REQ_ALL ∨ numReqs = NC_PUT_REQ_ALL then
     let e1 : Ext := if numReqs = NC_PUT_REQ_ALL ∨ numReqs = NC_REQ_ALL then
@@ -252,19 +286,19 @@ def extract (nc : NC) (numReqs : Int) (ids : List Int) (st : Option (List Int)) 
       { e1 with nc := { e1.nc with get := nc.get.takeAll }, numRLead := nc.get.numLead,
                 numR := nc.get.numReqs, getList := nc.get.nonlead }
     else e1
-  else if nc.get.numReqs = 0 ∧ numReqs = (nc.put.numLead : Int) then
+  else if sc1 V nc numReqs ids then
     -- "this is the same as NC_PUT_REQ_ALL"
     let pl := if st.isSome then slotByPosition 0 nc.put.lead else nc.put.lead
     { base with ids := nullIds ids, st := st.map (zeroFirst nc.put.numLead),
                 nc := { nc with put := { nc.put with lead := flagAll pl, nonlead := [], numReqs := 0 } },
                 numWLead := nc.put.numLead, numW := nc.put.numReqs, putList := nc.put.nonlead }
-  else if nc.put.numReqs = 0 ∧ numReqs = (nc.get.numLead : Int) then
+  else if sc2 V nc numReqs ids then
     -- "this is the same as NC_GET_REQ_ALL"
     let gl := if st.isSome then slotByPosition 0 nc.get.lead else nc.get.lead
     { base with ids := nullIds ids, st := st.map (zeroFirst nc.get.numLead),
                 nc := { nc with get := { nc.get with lead := flagAll gl, nonlead := [], numReqs := 0 } },
                 numRLead := nc.get.numLead, numR := nc.get.numReqs, getList := nc.get.nonlead }
-  else if numReqs = ((nc.put.numLead + nc.get.numLead : Nat) : Int) ∧ st.isNone then
+  else if sc3 V nc numReqs ids st then
     -- "this is the same as NC_REQ_ALL"
     { base with ids := nullIds ids,
                 nc := { nc with put := nc.put.takeAll, get := nc.get.takeAll },
@@ -272,7 +306,11 @@ def extract (nc : NC) (numReqs : Int) (ids : List Int) (st : Option (List Int)) 
                 numRLead := nc.get.numLead, numR := nc.get.numReqs, getList := nc.get.nonlead }
   else
     let e := markLoop 0 ids base
-    if e.err ≠ NC_NOERR then e        -- `if (status != NC_NOERR) return status;` (flags stay set!)
+    if e.err ≠ NC_NOERR then          -- `if (status != NC_NOERR) return status;` (as found: the flags stay set!)
+      (if V.clearOnRefusal then
+         { e with nc := { e.nc with put := { e.nc.put with lead := clearMarks e.nc.put.lead },
+                                    get := { e.nc.get with lead := clearMarks e.nc.get.lead } } }
+       else e)
     else
       let c := copyLoop e.nc ids
       { e with ids := c.1, putList := c.2.1, getList := c.2.2,
@@ -325,11 +363,11 @@ deriving Repr
 
 /-- req_commit without the I/O and without MPI (single process view; the error exchange of the
     collective path only matters when another rank fails) -/
-def wait (nc : NC) (numReqs : Int) (ids : List Int) (st : Option (List Int)) : WaitRes :=
-  let e := extract nc numReqs ids st
+def wait (nc : NC) (numReqs : Int) (ids : List Int) (st : Option (List Int)) (V : Variant := {}) : WaitRes :=
+  let e := extract nc numReqs ids st V
   if e.err ≠ NC_NOERR then { nc := e.nc, ids := e.ids, st := e.st, err := e.err }
   else
-    let nn := newNumrecs nc.numrecs e.numWLead e.nc.put.lead
+    let nn := newNumrecs nc.numrecs (if V.numrecsAllLeads then e.nc.put.numLead else e.numWLead) e.nc.put.lead
     -- wait_getput(NC_REQ_WR) runs when this process has write requests and raises ncp->numrecs
     let numrecs' := if e.numW > 0 ∧ nc.numrecs < nn then nn else nc.numrecs
     let p := e.nc.put.cleanup e.numWLead
